@@ -185,6 +185,11 @@ class Executor:
             self.shadows.pop(op[1], None)
             gc.collect()
             return
+        if k == "probe_heap":
+            import gc as _gc
+
+            rec["heap"] = {"gc_count": list(_gc.get_count()), "blocks": sys.getallocatedblocks(), "frozen": _gc.get_freeze_count()}
+            return
         if k == "swap_hook":
             self.world.swap_hook()
             return
